@@ -68,6 +68,12 @@ func realMain() (code int) {
 		}
 	}
 	switch id {
+	case "--stress":
+		if len(args) < 4 {
+			return exitTool
+		}
+		sd, _ := strconv.ParseInt(args[2], 10, 64)
+		return stressEntry(args[1], sd, args[3])
 	case "--setup":
 		return setup()
 	case "--selftest":
